@@ -64,6 +64,13 @@ var Name = map[string]string{
 	"redblacktree": "RedBlackTree", "avltree": "AVLTree", "btree": "BTree", "binaryheap": "BinaryHeap",
 }
 
+// treeShaped kinds print their node structure in String(); the structure after
+// FromJSON depends on Go's map iteration order, so only the name line and the
+// multiset of printed keys are compared.
+func treeShaped(kind string) bool {
+	return kind == "redblacktree" || kind == "avltree" || kind == "btree"
+}
+
 // Unordered kinds enumerate in Go map order.
 func Unordered(kind string) bool {
 	return kind == "hashset" || kind == "hashmap" || kind == "hashbidimap"
@@ -285,10 +292,12 @@ func (r *Runner) norm1(method string, v reflect.Value) any {
 		return v.Int()
 	case reflect.String:
 		s := v.String()
-		if method == "String" && unordered {
+		if method == "String" && (unordered || treeShaped(r.Cfg.Kind)) {
 			// the listing is in map order: keep the name line and the multiset of the rest
 			head, rest, _ := strings.Cut(s, "\n")
-			toks := strings.FieldsFunc(rest, func(c rune) bool { return c == ' ' || c == ',' || c == '[' || c == ']' })
+			toks := strings.FieldsFunc(rest, func(c rune) bool {
+				return c == ' ' || c == ',' || c == '[' || c == ']' || c == '\n' || c == '│' || c == '└' || c == '┌' || c == '─'
+			})
 			sort.Strings(toks)
 			return head + "\n" + strings.Join(toks, " ")
 		}
